@@ -22,7 +22,7 @@ type c13Doc struct {
 	Before []string `json:"before"` // explicit keys written before <<
 	Merge  []string `json:"merge"`  // alias names; len 0 = no merge key; Single => written as a single alias
 	Single bool     `json:"single"`
-	After  []string `json:"after"` // explicit keys written after <<
+	After  []string `json:"after"`  // explicit keys written after <<
 	Inline bool     `json:"inline"` // anchors defined inside the target document part (thorough)
 	Style  int      `json:"style"`  // how explicit values are written: 0 plain scalar, 1 alias to a scalar, 2 map that itself merges *a
 }
@@ -433,8 +433,8 @@ func init() {
 			Rule: "generator with ground truth: target map with every placement of explicit keys before/after `<<`, `<<` as a single alias or every ordered list of 1..3 aliases (overlapping keys, one anchored map itself merging another), aliases to a scalar, a sequence and a map in value positions; " +
 				"routes: traversal of the un-exploded document, explode(.) then traversal (plus: no alias, merge key or anchor left, other values unchanged), JSON encoding; oracle: the YAML merge-key rules computed from the generator's ground truth; non-trivial = document with a merge key",
 			Assumptions: []string{"two deviations are documented behaviour of yq and pinned by its doc-generating tests (explicit key written before `<<` loses; later entries of a merge list win on traversal): recorded in KNOWN_FINDINGS with signatures that name route and culprit; any other disagreement is a violation"},
-			Budget: func(t string) time.Duration { return 10 * time.Minute },
-			Run:    c13Run, Replay: c13Replay,
+			Budget:      func(t string) time.Duration { return 10 * time.Minute },
+			Run:         c13Run, Replay: c13Replay,
 		})
 	})
 }
